@@ -19,6 +19,7 @@ from ._formula_generator import (
     FormulaGenerator,
     FormulaGeneratorConfig,
 )
+from ._simple_formula import SimplePowerFormula
 
 _logger = logging.getLogger(__name__)
 
@@ -157,12 +158,15 @@ class BatteryPowerFormula(FormulaGenerator[Power]):
                 )
             )
 
-            generator = BatteryPowerFormula(
+            # The fallback has to add up exactly the inverters behind the primary
+            # meter.  Asking for their batteries instead would also pull in any other
+            # inverter that shares one of these batteries.
+            generator = SimplePowerFormula(
                 f"{self._namespace}_fallback_{battery_ids}",
                 self._channel_registry,
                 self._resampler_subscription_sender,
                 FormulaGeneratorConfig(
-                    component_ids=battery_ids,
+                    component_ids={inv.component_id for inv in fallback_components},
                     allow_fallback=False,
                 ),
             )
